@@ -4,7 +4,7 @@ META = dict(
           'tainted_volatile<T[N]> (guest layout, mbox lp32 memory); N = 1..16 for int and char, {1,2,3,8,16} for short/long/long long/int*/double, long arrays char[129/200/256/300/32769/40000] and long[200] (lengths a bounds check done in the width of an 8- or 16-bit index would let through; abort and address only); shapes '
           '2x3 and 3x2; 10 index types; every 8/16-bit index value, boundary + aliasing values (2^8+i, 2^16+i, 2^31+i, 2^32+i, 2^33+i, 2^63+i, negatives) '
           'for 32/64-bit (thorough: every index in [-300, 8*len+300] and 2^k+i, -2^k+i, 2^k-1-i for every k in 3..64); plain, tainted and tainted_volatile indices. Oracle: abort iff idx<0 or idx>=len, else element address = start + idx*elem_size '
-          'of that layout and a store through it changes only that element (canaries). non-trivial = out-of-range index.'),
+          'of that layout and a store through it changes only that element (canaries). non-trivial = out-of-range index. Plus a build-configuration partition on the bundled noop backend: 7 ways a failed check is reported (abort(), -fno-exceptions, RLBOX_USE_EXCEPTIONS with and without compiler exceptions, custom abort handler with and without, -O2) x 7 index types x 19 values x {application, sandbox memory} x {plain, tainted index} x {read, write}, each case in a forked child that must not return from an out-of-range indexing expression.'),
     assumptions=['aborts observed through RLBOX_CUSTOM_ABORT flag', 'arrays of structs in sandbox memory do not compile in RLBox and are absent'],
 )
 
@@ -14,3 +14,10 @@ def run(ctx):
     bins = ctx.build_many(specs)
     for k in 'ABCDE':
         ctx.run(bins['c17_' + k.lower()], ['--thorough'] if ctx.thorough else [])
+    # the ways a failed check can be reported: in every one of them an out-of-range index must not return
+    cfgs = [('default', [], []), ('noexc', [], ['-fno-exceptions']), ('useexc', ['RLBOX_USE_EXCEPTIONS'], []),
+            ('useexc_noexc', ['RLBOX_USE_EXCEPTIONS'], ['-fno-exceptions']), ('custom', ['C17CFG_CUSTOM'], []),
+            ('custom_noexc', ['C17CFG_CUSTOM'], ['-fno-exceptions']), ('default_O2', [], ['-O2'])]
+    cb = ctx.build_many([('c17cfg_' + n, 'c17cfg.cpp', dict(opt='-O1', defs=d + ['C17CFG_NAME="%s"' % n], flags=f, link=['-ldl'])) for n, d, f in cfgs])
+    for n, d, f in cfgs:
+        ctx.run(cb['c17cfg_' + n], [], parts=1)
